@@ -945,6 +945,40 @@ func runSlotMax(c *Ctx, r *Reporter) {
 	for _, need := range []string{"outer.nestedMaxIndex", "s.nestedMaxIndex", "s.index"} {
 		r.Check(deps[need], fd.QName()+"#depends-on:"+need, p.Rel(instrPos(store)), "the propagated requirement depends on "+need, "the slot requirement stored into the outer table no longer depends on "+need+": blocks nested or placed side by side in a certain way get too few local slots, and the VM's operand stack overwrites live variables")
 	}
+	// the three quantities are absolute slot indexes: they combine by maximum, never by arithmetic
+	arith := ""
+	var scan func(v ssa.Value, depth int)
+	scan = func(v ssa.Value, depth int) {
+		if depth == 0 {
+			return
+		}
+		switch x := v.(type) {
+		case *ssa.BinOp:
+			switch x.Op {
+			case token.ADD, token.SUB, token.MUL:
+				_, lc := x.X.(*ssa.Const)
+				_, rc := x.Y.(*ssa.Const)
+				if !lc && !rc {
+					arith = x.Op.String()
+				}
+			}
+			scan(x.X, depth-1)
+			scan(x.Y, depth-1)
+		case *ssa.Call:
+			for _, a := range x.Call.Args {
+				scan(a, depth-1)
+			}
+		case *ssa.Phi:
+			for _, e := range x.Edges {
+				scan(e, depth-1)
+			}
+		case *ssa.Convert:
+			scan(x.X, depth-1)
+		}
+	}
+	scan(store.Val, 8)
+	r.Check(arith == "", fd.QName()+"#absolute-indexes", p.Rel(instrPos(store)), "the requirement is a maximum of absolute slot indexes",
+		"the slot requirement combines two slot indexes with `"+arith+"`: both are absolute positions, so the sum grows with every nesting level (quadratic local count, VM stack overflow for deeply nested blocks) or the difference under-allocates")
 	var got []string
 	for k := range deps {
 		got = append(got, k)
